@@ -2,7 +2,8 @@
 From Coq Require Import String.
 From Coq Require Import List NArith ZArith Bool.
 From Dials Require Export Base.Outcome Base.Runes Reflect.Ty Reflect.Ptrify Stack.Overlay
-  Text.CaseConv Text.GoCamelSpec Text.ParseText Sources.Flatten Sources.FlattenSpec Sources.Env Sources.Flags.
+  Text.CaseConv Text.GoCamelSpec Text.ParseInt Text.Quote Text.Split Text.ParseText Sources.Flatten Sources.FlattenSpec
+  Sources.Env Sources.Flags Sources.FlagsDefaults.
 From Dials Require Import Check.C11Check.
 Import ListNotations.
 Open Scope list_scope.
@@ -60,6 +61,152 @@ Fixpoint names_ok (pk : pkg) (te : N) (nd : dict) (regs : list reg) (pts : list 
   | _, _ => false
   end.
 
+(* ================= the by-name specification =================
+   Independent of the model of registerFlags / Parse / Value (flag_regs,
+   run_occs, flag_value): it speaks about documented flag NAMES, the
+   depth-first leaf paths of the type (FlattenSpec.paths), a positional read
+   of the template (FlagsDefaults.tl_fields) and of the implementation's value
+   (FlattenSpec.leaves_of), and the accumulation LAW of each flag kind over
+   the texts given for that name.  Shared with the model: the table of flag
+   kinds per leaf type (flag_kind), the parsers of property C15 and the
+   association-list helpers.  Evaluated for types without alias tags (alias
+   cases are judged against the model only). *)
+Fixpoint omapL {A B} (f : A -> outcome B) (l : list A) : outcome (list B) :=
+  match l with [] => Ok [] | a :: r => b <- f a ;; bs <- omapL f r ;; Ok (b :: bs) end.
+
+Fixpoint texts_for (n : str) (occs : list (str * str)) : list str :=
+  match occs with
+  | [] => []
+  | (m, t) :: r => if str_eqb n m then t :: texts_for n r else texts_for n r
+  end.
+
+Definition last_of {A} (l : list A) (d : A) : A := last l d.
+
+(* the value a flag of kind k holds after the texts ts (non-empty), by law:
+   scalars - the last text, every text must parse; slices - the parsed lists
+   concatenated, the default dropped; maps and sets - the union, later texts
+   overwriting / extending; a TextUnmarshaler - what UnmarshalText left *)
+Definition law (k : fkind) (dflt : val) (ts : list str) : outcome val :=
+  match k with
+  | FkString => Ok (VStr (last_of ts []))
+  | FkBool => l <- omapL PS.parse_bool ts ;; Ok (VBool (last_of l false))
+  | FkInt b => l <- omapL (fun t => parse_int t b) ts ;; Ok (VInt (last_of l 0%Z))
+  | FkUint b => l <- omapL (fun t => ures_out (parse_uint t b)) ts ;; Ok (VInt (Z.of_N (last_of l 0)))
+  | FkFloat b => l <- omapL (parse_float b) ts ;; Ok (VFloat (last_of l 0%Z))
+  | FkComplex b => l <- omapL (parse_complex b) ts ;; Ok (last_of l VNil)
+  | FkDuration => l <- omapL parse_duration ts ;; Ok (VInt (last_of l 0%Z))
+  | FkText true => Ok (VText (last_of ts []))
+  | FkText false => Ok dflt
+  | FkIP => l <- omapL parse_ip ts ;; Ok (last_of l VNil)
+  | FkStrSlice native =>
+      l <- omapL (fun t => if native then pflag_csv t else string_slice isp0 t) ts ;;
+      Ok (VList (map VStr (concat l)))
+  | FkIntSlice sg b =>
+      l <- omapL (fun t => if sg then omap (map VInt) (signed_slice (sw_of b) t)
+                           else omap (map (fun n => VInt (Z.of_N n))) (unsigned_slice (uw_of b) t)) ts ;;
+      Ok (VList (concat l))
+  | FkStrMap =>
+      l <- omapL (map_ss_parse isp0) ts ;;
+      Ok (VMap (fold_left (fun m kv => map_put (VStr (fst kv)) (VStr (snd kv)) m) (concat l) []))
+  | FkStrSet =>
+      l <- omapL (string_set isp0) ts ;;
+      Ok (VMap (fold_left (fun m w => map_put (VStr w) set_unit m) (concat l) []))
+  | FkStrSliceMap =>
+      l <- omapL (mss_parse isp0) ts ;;
+      Ok (VMap (fold_left (fun m kvs => merge_mss kvs m) l []))
+  end.
+
+(* what the leaf holds for a flag value v *)
+Definition leaf_of_flag (p : pkg) (k : fkind) (lt : ty) (v : val) : outcome val :=
+  match k with
+  | FkStrSlice _ | FkIntSlice _ _ | FkStrMap | FkStrSet | FkStrSliceMap | FkIP => Ok v
+  | _ => match lt with
+         | TPtr e => match p with
+                     | PStd => if fits e v then Ok (VPtr v) else Err 31      (* out of the leaf's range *)
+                     | PPflag => Ok (VPtr v)
+                     end
+         | _ => Err 97
+         end
+  end.
+
+Record sleaf := mkSleaf { sl_name : str; sl_ty : ty; sl_kind : option fkind; sl_dflt : val }.
+
+Definition spec_leaves (p : pkg) (te : N) (nd : dict) (fs : fields) (tmpl : list val) : outcome (list sleaf) :=
+  let pfs := ptrify_fields fs in
+  omapL (fun pd =>
+           let pt := fst pd in
+           n <- doc_flag_name p te nd (fst pt) ;;
+           let t := snd pt in
+           let dash := match tag_lookup (src_tag p) (leaf_tags (fst pt)) with Some v => str_eqb v Ty.dash | None => false end in
+           Ok (mkSleaf n t (if dash then None else flag_kind p (strip_ptr_ty t))
+                       (match snd pd with Some v => v | None => zero (strip_ptr_ty t) end)))
+        (combine (paths pfs) (tl_fields fs (Some tmpl))).
+
+Definition flat_go_names (ne : N) (pfs : fields) : list str :=
+  map (fun pt => name_enc ne (flat_map (fun c => if c_anon c then [] else [c_name c]) (fst pt))) (paths pfs).
+
+(* registration must fail iff two leaves share a flag name (other than "-"),
+   share a flattened Go name, or - std package - a registered name begins
+   with '-' or contains '=' *)
+Definition spec_reg_error (p : pkg) (ne : N) (fs : fields) (sls : list sleaf) : bool :=
+  has_dup (filter (fun n => negb (str_eqb n Ty.dash)) (map sl_name sls)) ||
+  has_dup (flat_go_names ne (ptrify_fields fs)) ||
+  match p with
+  | PStd => existsb (fun sl => negb (str_eqb (sl_name sl) Ty.dash) && bad_std_name (sl_name sl)) sls
+  | PPflag => false
+  end.
+
+Definition spec_advertised (sls : list sleaf) : list (str * val) :=
+  flat_map (fun sl => match sl_kind sl with
+                      | Some k => [(sl_name sl, canon_default k (sl_dflt sl))]
+                      | None => [] end) sls.
+
+(* the expected leaves (depth first) of the value *)
+Definition spec_values (p : pkg) (sls : list sleaf) (occs : list (str * str)) : outcome (list val) :=
+  if negb (forallb (fun o => existsb (fun sl => str_eqb (fst o) (sl_name sl) &&
+                                        match sl_kind sl with Some _ => true | None => false end) sls) occs)
+  then Err 30                                              (* a flag that is not defined *)
+  else omapL (fun sl => match texts_for (sl_name sl) occs, sl_kind sl with
+                        | [], _ | _, None => Ok VNil       (* not given: unset *)
+                        | ts, Some k => v <- law k (sl_dflt sl) ts ;; leaf_of_flag p k (sl_ty sl) v
+                        end) sls.
+
+(* every struct pointer is allocated exactly when some leaf below it is set *)
+Fixpoint alloc_ok_ty (t : ty) (v : val) {struct t} : bool :=
+  match t, v with
+  | TPtr (TStruct fs _), VNil => true
+  | TPtr (TStruct fs _), VPtr (VStruct vs) =>
+      existsb (fun x => negb (is_vnil x)) (read_fields fs (Some vs)) && alloc_ok fs vs
+  | TPtr (TStruct _ _), _ => false
+  | _, _ => true
+  end
+with alloc_ok (fs : fields) (vs : list val) {struct fs} : bool :=
+  match fs, vs with
+  | FNil, [] => true
+  | FCons _ _ _ t r, v :: vs' => alloc_ok_ty t v && alloc_ok r vs'
+  | _, _ => false
+  end.
+
+(* 0 = the implementation satisfies the specification, 3 = it does not,
+   12 = it does not, the flag names being those the (name-faithful) model
+   derives: known class 2 is decided by the caller *)
+Definition spec_check (p : pkg) (ne te : N) (nd : dict) (fs : fields) (tmpl : list val)
+    (iadv : outcome (list (str * val))) (occs : list (str * str)) (impl : outcome (list val)) : bool :=
+  let pfs := ptrify_fields fs in
+  match spec_leaves p te nd fs tmpl with
+  | Ok sls =>
+      if spec_reg_error p ne fs sls then
+        match iadv, impl with Err _, Err _ => true | _, _ => false end
+      else
+        adv_eqb iadv (Ok (spec_advertised sls)) &&
+        match spec_values p sls occs, impl with
+        | Ok exp, Ok vs => cvals_eqb (leaves_of pfs vs) exp && alloc_ok pfs vs
+        | Err _, Err _ => true
+        | _, _ => false
+        end
+  | _ => match iadv, impl with Err _, Err _ => true | _, _ => false end
+  end.
+
 Inductive c12case :=
 | FlagCase (pk ne te : N) (fs : fields) (tmpl : list val) (nd : dict)
            (impl_adv : outcome (list (str * val)))
@@ -67,32 +214,34 @@ Inductive c12case :=
            (impl : outcome (list val)) (impl_stacked : outcome (list val))
 | FlagSkip.   (* the returned value holds a float too large for the harness' value printer *)
 
-(* verdicts: 0 pass (incl. cases with colliding flag names, which are outside
-   the property and the model), 3 property fails, 12 = known class 2 (a field
-   name is split by DecodeGoCamelCase into other words than it is made of),
-   14 = known class 4 (two leaves flatten to the same Go field name:
-   reflect.StructOf panics while the flags are registered) *)
+(* verdicts: 0 pass; 1 the implementation satisfies the by-name specification
+   but differs from the model; 3 the specification fails on the
+   implementation's output; 12 it fails, implementation = model, and the
+   model's flag names differ from the documented ones (known class 2: a field
+   name is split by DecodeGoCamelCase into other words than it is made of).
+   Types with alias tags are judged against the model only. *)
 Definition check (c : c12case) : N :=
   match c with
   | FlagSkip => 0
   | FlagCase pk ne te fs tmpl nd iadv occs impl istacked =>
       let p := pkg_of pk in
-      match flag_regs p ne te fs tmpl with
-      | mregs =>
-          let madv := omap flag_advertised mregs in
-          let model := flag_value p ne te fs tmpl occs in
-          let same := adv_eqb iadv madv && cout_eqb impl model &&
-                      match model with
-                      | Ok vs => cout_eqb istacked (compose fs tmpl [VStruct vs])
-                      | _ => true end in
-          let nok := match mregs with
-                     | Ok regs => names_ok p te nd regs (paths (alias_fields (flag_alias_keys p) (ptrify_fields fs)))
-                     | _ => true end in
-          match impl, model with
-          | Panic _, _ => 3                             (* no panic is ever acceptable *)
-          | _, _ => if same then (if nok then 0 else 12) else 3
-          end
-      end
+      let mregs := flag_regs p ne te fs tmpl in
+      let madv := omap flag_advertised mregs in
+      let model := flag_value p ne te fs tmpl occs in
+      let same := adv_eqb iadv madv && cout_eqb impl model in
+      let stacked_ok := match impl with
+                        | Ok vs => cout_eqb istacked (compose fs tmpl [VStruct vs])
+                        | _ => true end in
+      let nok := match mregs with
+                 | Ok regs => names_ok p te nd regs (paths (alias_fields (flag_alias_keys p) (ptrify_fields fs)))
+                 | _ => true end in
+      if is_panic impl || is_panic iadv then 3             (* no panic is ever acceptable *)
+      else if negb stacked_ok then 3
+      else if alias_free (flag_alias_keys p) (ptrify_fields fs) then
+        if spec_check p ne te nd fs tmpl iadv occs impl then (if same then 0 else 1)
+        else if same && negb nok then 12
+        else 3
+      else if same then (if nok then 0 else 12) else 3
   end.
 
 Fixpoint run_from (i : N) (cs : list c12case) : list (N * N) :=
